@@ -56,6 +56,13 @@ Unbroken(expected, shown) ==
        THEN Unbroken(Tail(expected), SubSeq(shown, 3, Len(shown)))
        ELSE Head(expected) = Head(shown) /\ Unbroken(Tail(expected), Tail(shown))
 
+\* label of an extant object without synteny: <species>\textsubscript{<id>}, the
+\* name being split at its last underscore, both parts escaped
+SUBSCRIPT == <<92, 116, 101, 120, 116, 115, 117, 98, 115, 99, 114, 105, 112, 116, 123>>   \* "\textsubscript{"
+LastUnderscore(s) == CHOOSE i \in DOMAIN s : s[i] = US /\ \A j \in (i + 1)..Len(s) : s[j] # US
+LeafLabel(name) == LET i == LastUnderscore(name) IN
+  Escape(SubSeq(name, 1, i - 1)) \o SUBSCRIPT \o Escape(SubSeq(name, i + 1, Len(name))) \o <<125>>
+
 \* greedy wrapping of words of the given lengths: number of lines
 GreedyLines(lens, w) ==
   LET st == FoldLeft(LAMBDA acc, n : IF acc.cur = 0 THEN [lines |-> acc.lines + 1, cur |-> n]
